@@ -272,7 +272,8 @@ theorem Basic.phase1_sound {P : BasicP} {lbs : Nat} {data : ByteArray} {mask cur
           · rw [if_pos hl] at h
             obtain ⟨hlen, hag⟩ := min4_sound hf
             exact Basic.phase1Take_sound
-              (fun score => hI0.take_backward hc hcb hcond.1 hcond.2 hlen hag score) h
+              (fun score => hI0.take_backward hc hcb hcond.1 hcond.2 hlen
+                (fun h4 => by have := min4_ge4 hf hl h4; omega) hag score) h
           · rw [if_neg hl] at h; exact hnone r h
       · rw [if_neg hcc] at h; exact hnone r h
   · rw [if_neg hcond] at h; exact hnone r h
@@ -307,7 +308,8 @@ theorem Basic.phase2Single_sound {lbs : Nat} {data : ByteArray} {mask curIx cm m
           · rw [if_pos hl] at h
             injection h with h; subst h
             obtain ⟨hlen, hag⟩ := min4_sound hf
-            have := hI.take_prev (fun hh => hw (Or.inl hh)) (fun hh => hw (Or.inr hh)) hlen hag
+            have := hI.take_prev (fun hh => hw (Or.inl hh)) (fun hh => hw (Or.inr hh)) hlen
+              (fun h4 => by have := min4_ge4 hf hl h4; omega) hag
               (scoreBackward lbs len (wsub curIx prev))
             exact ⟨fun ret hh _ => by injection hh with hh; subst hh; exact this.2 rfl,
               fun t' hh => (by cases hh)⟩
